@@ -431,12 +431,12 @@ condition is that no two entries address the same top-level field: `(addressed u
     twice included. -/
 theorem update_is_pointwise (spec now : Val) (wasInsert : Bool) (u fs fs' : Fields)
     (hu : u.all (fun kv => kv.1.startsWith "$") = true) (hne : u ≠ [])
-    (hd : (addressed u).Nodup)
+    (hpos : positionalUpdate u = false) (hd : (addressed u).Nodup)
     (h : applyUpdate spec (.doc u) now wasInsert (.doc fs) = .ok (.doc fs')) :
     ∀ e, e ∈ entries u → ∃ fs₁,
       applyUpdate spec (.doc (single e)) now wasInsert (.doc fs) = .ok (.doc fs₁) ∧
       ∀ k, k ∈ addressed (single e) → dget k fs' = dget k fs₁ :=
-  Proofs.C02.update_is_pointwise spec now wasInsert u fs fs' hu hne hd h
+  Proofs.C02.update_is_pointwise spec now wasInsert u fs fs' hu hne hpos hd h
 
 /-- non-vacuity: five operators, seven entries (dotted paths, an array index, a `$rename` with
     its two fields, a `$setOnInsert` that is skipped), distinct heads; the update succeeds, and so
@@ -447,7 +447,8 @@ example :
       ("$setOnInsert", .doc [("s", .int 0)]), ("$unset", .doc [("z", .str "")])]
     let fs : Fields := [("_id", .int 1), ("a", .doc [("y", .int 0)]), ("l", .arr [.int 5, .int 6]),
       ("n", .int 40), ("c", .str "v"), ("z", .int 0), ("z", .int 1)]
-    u.all (fun kv => kv.1.startsWith "$") = true ∧ u ≠ [] ∧ (addressed u).Nodup ∧
+    u.all (fun kv => kv.1.startsWith "$") = true ∧ u ≠ [] ∧ positionalUpdate u = false ∧
+    (addressed u).Nodup ∧
     addressed u = ["a", "l", "n", "c", "e", "p", "s", "z"] ∧ (entries u).length = 7 ∧
     okIs (applyUpdate .null (.doc u) .null false (.doc fs))
       (.doc [("_id", .int 1), ("a", .doc [("y", .int 0), ("x", .int 1)]), ("l", .arr [.int 5, .int 7]),
@@ -475,6 +476,7 @@ example :
     it is used in a form that also covers documents holding a key twice.) -/
 theorem entry_reads_only_its_fields (spec now : Val) (wasInsert : Bool) (e : Entry)
     (fs gs : Fields) (he : e.1.startsWith "$" = true)
+    (hpos : positionalUpdate (single e) = false)
     (hk : (dkeys fs).Nodup) (hk' : (dkeys gs).Nodup)
     (hag : ∀ k, k ∈ addressed (single e) → dget k fs = dget k gs) :
     (∀ err, applyUpdate spec (.doc (single e)) now wasInsert (.doc fs) = .error err →
@@ -482,7 +484,7 @@ theorem entry_reads_only_its_fields (spec now : Val) (wasInsert : Bool) (e : Ent
     (∀ fs', applyUpdate spec (.doc (single e)) now wasInsert (.doc fs) = .ok (.doc fs') →
       ∃ gs', applyUpdate spec (.doc (single e)) now wasInsert (.doc gs) = .ok (.doc gs') ∧
         ∀ k, k ∈ addressed (single e) → dget k fs' = dget k gs') :=
-  Proofs.C02.entry_reads_only_its_fields spec now wasInsert e fs gs he hk hk' hag
+  Proofs.C02.entry_reads_only_its_fields spec now wasInsert e fs gs he hpos hk hk' hag
 
 /-- non-vacuity: a `$rename c → e` on two documents that agree on `c` and `e` (both lack `e`) and
     differ elsewhere -/
@@ -490,7 +492,8 @@ example :
     let fs : Fields := [("_id", .int 1), ("c", .str "v"), ("x", .int 0)]
     let gs : Fields := [("c", .str "v"), ("_id", .int 2), ("y", .arr [])]
     let e : Entry := ("$rename", "c", .str "e")
-    e.1.startsWith "$" = true ∧ (dkeys fs).Nodup ∧ (dkeys gs).Nodup ∧ addressed (single e) = ["c", "e"] ∧
+    e.1.startsWith "$" = true ∧ positionalUpdate (single e) = false ∧
+    (dkeys fs).Nodup ∧ (dkeys gs).Nodup ∧ addressed (single e) = ["c", "e"] ∧
     (dget "c" fs == dget "c" gs) = true ∧ (dget "e" fs == dget "e" gs) = true ∧
     okIs (applyUpdate .null (.doc (single e)) .null false (.doc fs))
       (.doc [("_id", .int 1), ("x", .int 0), ("e", .str "v")]) = true ∧
@@ -502,10 +505,10 @@ example :
     document, the whole update fails. -/
 theorem update_error_of_entry (spec now : Val) (wasInsert : Bool) (u fs : Fields)
     (hu : u.all (fun kv => kv.1.startsWith "$") = true) (hne : u ≠ [])
-    (hd : (addressed u).Nodup) (e : Entry) (he : e ∈ entries u) (err : Err)
+    (hpos : positionalUpdate u = false) (hd : (addressed u).Nodup) (e : Entry) (he : e ∈ entries u) (err : Err)
     (h : applyUpdate spec (.doc (single e)) now wasInsert (.doc fs) = .error err) :
     ∃ err', applyUpdate spec (.doc u) now wasInsert (.doc fs) = .error err' :=
-  Proofs.C02.update_error_of_entry spec now wasInsert u fs hu hne hd e he err h
+  Proofs.C02.update_error_of_entry spec now wasInsert u fs hu hne hpos hd e he err h
 
 /-- **Errors, both directions.**  A well-shaped update (every key one of the model's operators,
     every argument a document — an unknown operator or a non-document argument fails without
@@ -513,11 +516,11 @@ theorem update_error_of_entry (spec now : Val) (wasInsert : Bool) (u fs : Fields
     original document.  (Which error is reported may differ: e.g. the `$`-in-path check of
     `$set`-like operators is made for the whole operator document before its first field.) -/
 theorem update_error_iff (spec now : Val) (wasInsert : Bool) (u fs : Fields) (hne : u ≠ [])
-    (hs : wellShaped u = true) (hd : (addressed u).Nodup) :
+    (hs : wellShaped u = true) (hpos : positionalUpdate u = false) (hd : (addressed u).Nodup) :
     (∃ err, applyUpdate spec (.doc u) now wasInsert (.doc fs) = .error err) ↔
       ∃ e, e ∈ entries u ∧
         ∃ err, applyUpdate spec (.doc (single e)) now wasInsert (.doc fs) = .error err :=
-  Proofs.C02.update_error_iff spec now wasInsert u fs hne hs hd
+  Proofs.C02.update_error_iff spec now wasInsert u fs hne hs hpos hd
 
 /-- non-vacuity: a well-shaped update with distinct heads whose second entry (`$inc` of a string
     by a number) fails alone, and the whole update fails; and the shape condition is needed: an
@@ -525,7 +528,7 @@ theorem update_error_iff (spec now : Val) (wasInsert : Bool) (u fs : Fields) (hn
 example :
     let u : Fields := [("$set", .doc [("a", .int 1)]), ("$inc", .doc [("s", .int 1)])]
     let fs : Fields := [("_id", .int 1), ("s", .str "x")]
-    u ≠ [] ∧ wellShaped u = true ∧ (addressed u).Nodup ∧
+    u ≠ [] ∧ wellShaped u = true ∧ positionalUpdate u = false ∧ (addressed u).Nodup ∧
     (match applyUpdate .null (.doc u) .null false (.doc fs) with | .error .typeErr => true | _ => false) = true ∧
     (match applyUpdate .null (.doc (single ("$inc", "s", .int 1))) .null false (.doc fs) with
       | .error .typeErr => true | _ => false) = true ∧
@@ -542,32 +545,35 @@ example :
 theorem update_order_irrelevant (spec now : Val) (wasInsert : Bool) (u u' fs fs' fs'' : Fields)
     (hu : u.all (fun kv => kv.1.startsWith "$") = true) (hne : u ≠ [])
     (hu' : u'.all (fun kv => kv.1.startsWith "$") = true) (hne' : u' ≠ [])
+    (hpos : positionalUpdate u = false)
     (hd : (addressed u).Nodup) (hp : (entries u).Perm (entries u'))
     (h : applyUpdate spec (.doc u) now wasInsert (.doc fs) = .ok (.doc fs'))
     (h' : applyUpdate spec (.doc u') now wasInsert (.doc fs) = .ok (.doc fs'')) :
     ∀ k, dget k fs' = dget k fs'' :=
-  Proofs.C02.update_order_irrelevant spec now wasInsert u u' fs fs' fs'' hu hne hu' hne' hd hp h h'
+  Proofs.C02.update_order_irrelevant spec now wasInsert u u' fs fs' fs'' hu hne hu' hne' hpos hd hp h h'
 
 /-- … and the permuted update does succeed when it is well shaped. -/
 theorem update_order_success (spec now : Val) (wasInsert : Bool) (u u' fs fs' : Fields)
     (hu : u.all (fun kv => kv.1.startsWith "$") = true) (hne : u ≠ []) (hne' : u' ≠ [])
-    (hs' : wellShaped u' = true)
+    (hs' : wellShaped u' = true) (hpos : positionalUpdate u = false)
     (hd : (addressed u).Nodup) (hp : (entries u).Perm (entries u'))
     (h : applyUpdate spec (.doc u) now wasInsert (.doc fs) = .ok (.doc fs')) :
     ∃ fs'', applyUpdate spec (.doc u') now wasInsert (.doc fs) = .ok (.doc fs'') :=
-  Proofs.C02.update_order_success spec now wasInsert u u' fs fs' hu hne hne' hs' hd hp h
+  Proofs.C02.update_order_success spec now wasInsert u u' fs fs' hu hne hne' hs' hpos hd hp h
 
 /-- non-vacuity: the same three entries in reverse order (operators swapped, the paths inside
     `$set` swapped); both succeed, the new fields `b`, `n` come out in a different order -/
 example :
     let u : Fields := [("$set", .doc [("a", .int 1), ("b.c", .int 2)]), ("$inc", .doc [("n", .int 1)])]
     let u' : Fields := [("$inc", .doc [("n", .int 1)]), ("$set", .doc [("b.c", .int 2), ("a", .int 1)])]
-    (entries u).Perm (entries u') ∧ (addressed u).Nodup ∧ wellShaped u' = true ∧
+    (entries u).Perm (entries u') ∧ positionalUpdate u = false ∧ (addressed u).Nodup ∧
+    wellShaped u' = true ∧
     okIs (applyUpdate .null (.doc u) .null false (.doc [("_id", .int 1), ("a", .int 0)]))
       (.doc [("_id", .int 1), ("a", .int 1), ("b", .doc [("c", .int 2)]), ("n", .int 1)]) = true ∧
     okIs (applyUpdate .null (.doc u') .null false (.doc [("_id", .int 1), ("a", .int 0)]))
       (.doc [("_id", .int 1), ("a", .int 1), ("n", .int 1), ("b", .doc [("c", .int 2)])]) = true := by
-  refine ⟨?_, by decide +kernel, by decide +kernel, by decide +kernel, by decide +kernel⟩
+  refine ⟨?_, by decide +kernel, by decide +kernel, by decide +kernel, by decide +kernel,
+    by decide +kernel⟩
   exact (List.reverse_perm _).symm
 
 /-! ### replacement, field by field -/
